@@ -3,6 +3,14 @@
 cd /verif; export GOFLAGS=-mod=mod GOPROXY=off
 props=$(python3 -c "import json; print(' '.join(c['property_id'] for c in json.load(open('/verif/MANIFEST.json'))['checks']))")
 for p in $props; do ./bin/govc check -lock $p 2>&1 | grep -E "ERROR|UNDECIDED" | cut -c1-220; done
+# hooks.source_commits = the guarded ("verif:") commits of /repo
+python3 - <<'PY'
+import json,subprocess
+log=subprocess.run(['git','-C','/repo','log','--format=%h %s'],capture_output=True,text=True).stdout.splitlines()
+m=json.load(open('/verif/MANIFEST.json'))
+m['hooks']['source_commits']=list(reversed([l.split()[0] for l in log if l.split(' ',1)[1].startswith('verif:')]))
+json.dump(m,open('/verif/MANIFEST.json','w'),indent=1)
+PY
 bad=0
 for p in $props; do out=$(./check $p quick 2>&1); rc=$?; echo "$out" | tail -1; if [ $rc -ne 0 ] || echo "$out" | grep -q "^VIOLATION"; then echo "!!! $p rc=$rc"; bad=1; fi; done
 python3-vt - <<'PY'
